@@ -1,5 +1,5 @@
 SPECIFICATION MSpec
-CONSTANT UseCb = FALSE
-CONSTANT Points <- MlPointsThorough
+CONSTANT UseCb = TRUE
+CONSTANT Points <- MlPointsQuick
 INVARIANTS MlLedgerOK MlNoLeakAtRelease MlComplete MlStatus MlSound MlNoNullDest MlIndexInRange RankLemma ItBeforeFinish
 CHECK_DEADLOCK FALSE
